@@ -19,8 +19,8 @@ CFG = {
                  "operands of different representation, a NaN operand or two float zeros (cmp), every case (cmpx), non-zero number (neg), non-integral or finite float / any integer (prim). "
                  "NOT compared with the model, only run for the no-panic oracle (counted in extra.oracle_only_evaluations): `**` with a float operand or a negative "
                  "integer exponent (f64::powf). Float `//` and `%` ARE compared (f64::div_euclid / rem_euclid modelled over an exact fmod). "
-                 "Thorough tier: every ordered pair of boundary values (arith, one random representation per integer) and every ordered pair of pool numbers in "
-                 "every representation (cmp); quick tier: random pairs over the same pools + random integers of every bit length + floats next to integers.",
+                 "Thorough tier: every ordered pair of boundary values (arith, one random representation per integer) and every pool float against every boundary integer in every representation in both orders, every ordered pair of pool floats, every ordered pair of boundary integer values and "
+                 "of all representations of the width-boundary integers (cmp); quick tier: random pairs over the same pools + random integers of every bit length + floats next to integers.",
     "trusted_base": TB_COMMON + [
         "axioms: none (every C13 theorem is 'Closed under the global context')",
         "modelled, not verified: i128::checked_add/sub/mul/neg/pow, div_euclid/rem_euclid, wrapping_rem_euclid (modelled on Z with explicit range tests, "
